@@ -3,6 +3,7 @@ package main
 import (
 	"bytes"
 	"fmt"
+	"math/rand"
 	"strconv"
 )
 
@@ -154,6 +155,40 @@ func checkC12(c *Ctx) {
 			st2.Submit(Job{Kind: "run", Prog: symsToBytes(v.Text), Tag: string(raw)})
 		}})
 	st2.Wait()
+
+	// ---- (3) consistency on every error of arbitrary generated programs (binding B):
+	// the quoted line is line N of the program text (JqText.Lines, transcribed: split on LF).
+	nr := 8000
+	if c.Thorough() {
+		nr = 150000
+	}
+	rng := rand.New(rand.NewSource(c.Seed*31 + 5))
+	rcases := make([]randomCase, nr)
+	rjobs := make([]Job, nr)
+	for i := range rcases {
+		rcases[i] = genRandomCase(rng, i)
+		rcases[i].Sels = nil // only errors positioned in the program text
+		rjobs[i] = rcases[i].job(false)
+	}
+	nerr := 0
+	pool.Map(rjobs, func(i int, r Result) {
+		if r.Class != "syntax" && r.Class != "runtime" {
+			return
+		}
+		lines := splitLines([]byte(rcases[i].Prog))
+		if r.Line < 1 || r.Line > len(lines) || !bytes.Equal(r.SrcLine, lines[r.Line-1]) {
+			c.Violation("error-line-consistency", map[string]any{"program": rcases[i].Prog, "program_bytes": []byte(rcases[i].Prog), "inputs": rcases[i].Files,
+				"got_class": r.Class, "got_line": r.Line, "got_col": r.Col, "got_src": string(r.SrcLine), "got_msg": r.ErrMsg,
+				"why": "the quoted source line is not line N of the program text"})
+			return
+		}
+		nerr++
+		c.Case("rerr:"+rcases[i].Prog, r.Line > 1)
+		if nerr%4000 == 1 {
+			c.Sample(map[string]any{"family": "error consistency", "program": rcases[i].Prog, "class": r.Class, "line": r.Line, "col": r.Col, "src": string(r.SrcLine)})
+		}
+	})
+	c.Set("random_errors_checked", nerr)
 
 	c.Set("exhaustive", true)
 	c.Set("rule", "TLC enumerates (1) every text up to MaxLen bytes over {x,LF,CR,#,C3,A9} with every offset and (2) every program "+
